@@ -1,5 +1,5 @@
 \* the repaired compiled evaluator (total_cmp in the f64 comparison): agrees with the interpreter on every row, no escape
-CONSTANTS Families = {"f64leaf", "arith", "bool"}
+CONSTANTS Families = {"f64leaf", "bool"}
           Variants = {"nulls"}
           Impl = "fixed"
           Strict = TRUE
